@@ -51,7 +51,8 @@ def sortable_proxy(
                [3, 0]])
 
     """
-    poly = numpoly.aspolynomial(poly)
+    # (index-ordered indeterminates, as the monomial order refers to them)
+    poly = numpoly.align_indeterminants(poly)[0]
     coefficients = poly.coefficients
     proxy = numpy.tile(-1, poly.shape)
     largest = numpoly.lead_exponent(poly, graded=graded, reverse=reverse)
